@@ -38,7 +38,11 @@ pub enum Op {
     // server messages
     Result { txid: f64, stream_id: Option<f64>, non_number: bool },
     Error { txid: f64 },
-    OnStatus { code: Option<String>, form: u8, msid: u32 },
+    /// `txid`: the transaction id field of the status command (0 is usual; a status is not an
+    /// answer to a transaction, whatever number it carries)
+    OnStatus { code: Option<String>, form: u8, msid: u32, txid: f64 },
+    /// a command the workflow does not know (onBWDone, onFCPublish ...) carrying `txid`
+    OtherCommand { txid: f64 },
     Audio { msid: u32, ts: u32, data: Vec<u8> },
     Video { msid: u32, ts: u32, data: Vec<u8> },
     OnMetaData { msid: u32 },
@@ -360,7 +364,7 @@ impl Model {
                 }
             }
             Op::Ping { ts, .. } => want_tags.push(Tag::PingResponse { ts: *ts }),
-            Op::Control { .. } => {}
+            Op::Control { .. } | Op::OtherCommand { .. } => {}
             Op::PingResponse { ts } => want_events.push(Ev::PingResponse { ts: *ts }),
             Op::Ack { n } => want_events.push(Ev::AckReceived { n: *n }),
             Op::SetChunkSize { .. } | Op::StreamBegin { .. } => {}
